@@ -416,6 +416,17 @@ def run(ctx):
                 "no function reachable from IncrementalReconParser::parse uses a complete-input token parser: a token that reaches the end of the chunk is Incomplete, not finished",
                 "%s uses %s, which treats the end of the chunk as the end of the token: a top-level identifier, number or blob cut in the middle is decoded from its prefix ('abcd' in two reads gives 'ab'); path: %s" % (
                     bad[0][0].split("recon_parser::")[-1], bad[0][1].split("tokens::")[-1], chain(seen, bad[0][0])) if bad else "")
+        # nom's own complete-input combinators are the same hazard as the complete token parsers: `opt(complete::char('('))` answers "no" at the end of
+        # a chunk where the streaming form says Incomplete. Allowed only where the end of the chunk cannot change the answer (reason per entry).
+        NOM_COMPLETE_OK = {
+            # (function suffix, combinator): reason
+        }
+        nbad = sorted({(a, d) for a, d, w in edges if a in seen and d.startswith("nom::") and "::complete::" in d and not d.startswith("nom::combinator::complete")
+                       and (a.split("recon_parser::")[-1], d.split("::")[-1]) not in NOM_COMPLETE_OK})
+        r.check(not nbad, "incremental/only-streaming-nom-forms", where(bodies[nbad[0][0]]) if nbad else where(roots[0]),
+                "no function reachable from IncrementalReconParser::parse uses one of nom's complete-input character/bytes/number parsers",
+                "%s uses %s, which takes the end of the chunk for the end of the input: when a read boundary falls exactly there the incremental parser decides differently from the one-shot parser (e.g. `@\"my attr\"` | `(1)` : 'no body'); path: %s" % (
+                    nbad[0][0].split("recon_parser::")[-1], nbad[0][1], chain(seen, nbad[0][0])) if nbad else "")
         froots, fseen, fedges = reach(lambda d: "FinalSegmentParser" in d and d.endswith("::parse") and " as " in d and "Parser" in d)
         for b in froots:
             ctx.saw(b)
